@@ -2,6 +2,7 @@ package harness
 
 import (
 	"bufio"
+	"context"
 	"encoding/hex"
 	"encoding/json"
 	"fmt"
@@ -23,6 +24,10 @@ import (
 type apiCall struct {
 	Method string                 `json:"method"`
 	Params map[string]interface{} `json:"params,omitempty"`
+	// Abort k > 0: the client hangs up while the handler is about to issue its k-th SQL call
+	// (the handler is held there until the server has seen the disconnect). The answer is lost;
+	// what is checked is that such a request cannot disturb the sync either.
+	Abort int `json:"abort,omitempty"`
 }
 
 // pausePoint: the sync goroutine is held at SQL call Seq (before it runs, or
@@ -76,6 +81,7 @@ type apiRun struct {
 	Calls       int
 	ErrorResp   int
 	InsideBlock int // calls served while a block transaction was open
+	Aborted     int // requests whose client hung up in the middle of the handler
 }
 
 // checkResponse compares one response with the state of the last committed height.
@@ -136,6 +142,36 @@ func checkResponse(call apiCall, res json.RawMessage, st *heightState, committed
 				return fmt.Sprintf("get-pegnet-rates(latest) %s = %d, committed height %d recorded %d", t, v, committed, st.Rates[t])
 			}
 		}
+	case "get-transactions":
+		var r struct {
+			Actions []struct {
+				Height   int64 `json:"height"`
+				Executed int64 `json:"executed"`
+			} `json:"actions"`
+		}
+		json.Unmarshal(res, &r)
+		for _, a := range r.Actions {
+			if a.Height > int64(committed) || a.Executed > int64(committed) {
+				return fmt.Sprintf("get-transactions %v shows an action of height %d (executed %d) while the last committed block is %d", call.Params, a.Height, a.Executed, committed)
+			}
+		}
+	case "get-graded":
+		var r struct {
+			Height int64             `json:"height"`
+			Graded []json.RawMessage `json:"graded"`
+		}
+		json.Unmarshal(res, &r)
+		if r.Height > int64(committed) && len(r.Graded) > 0 {
+			return fmt.Sprintf("get-graded %v shows %d graded records of height %d while the last committed block is %d", call.Params, len(r.Graded), r.Height, committed)
+		}
+	case "get-bank":
+		var r struct {
+			Height int64 `json:"height"`
+		}
+		json.Unmarshal(res, &r)
+		if r.Height > int64(committed) {
+			return fmt.Sprintf("get-bank %v shows the bank row of height %d while the last committed block is %d", call.Params, r.Height, committed)
+		}
 	case "get-transaction-status":
 		var r struct {
 			Executed int64 `json:"executed"`
@@ -147,6 +183,73 @@ func checkResponse(call apiCall, res json.RawMessage, st *heightState, committed
 		}
 	}
 	return ""
+}
+
+// abortState coordinates one request whose client disconnects mid-handler.
+type abortState struct {
+	mu      sync.Mutex
+	at, cnt int
+	reached chan struct{}
+	release chan struct{}
+}
+
+// onHandlerSQL is called (on the handler's goroutine) before every SQL call of an API handler.
+func (a *abortState) onHandlerSQL() {
+	a.mu.Lock()
+	if a.at == 0 {
+		a.mu.Unlock()
+		return
+	}
+	a.cnt++
+	hit := a.cnt == a.at
+	reached, release := a.reached, a.release
+	a.mu.Unlock()
+	if hit {
+		close(reached)
+		select {
+		case <-release:
+		case <-time.After(5 * time.Second):
+		}
+	}
+}
+
+// run performs the request, hangs up when the handler reaches its k-th SQL call, gives the
+// server time to notice, and lets the handler go on. false: the handler never got that far.
+func (a *abortState) run(api *API, method string, params interface{}, k int) bool {
+	a.mu.Lock()
+	a.at, a.cnt = k, 0
+	a.reached, a.release = make(chan struct{}), make(chan struct{})
+	reached, release := a.reached, a.release
+	a.mu.Unlock()
+	ctx, cancel := context.WithCancel(context.Background())
+	done := make(chan struct{})
+	go func() {
+		api.CallCtx(ctx, method, params)
+		close(done)
+	}()
+	hit := false
+	select {
+	case <-reached:
+		hit = true
+		cancel() // the client closes the connection
+		time.Sleep(30 * time.Millisecond)
+	case <-done:
+	case <-time.After(10 * time.Second):
+	}
+	a.mu.Lock()
+	a.at = 0
+	a.mu.Unlock()
+	close(release)
+	cancel()
+	select {
+	case <-done:
+	case <-time.After(10 * time.Second):
+	}
+	if hit {
+		// let the handler finish on the server side (it holds locks the sync loop may need)
+		time.Sleep(20 * time.Millisecond)
+	}
+	return hit
 }
 
 // runWithAPI syncs the scenario while serving the schedule's calls at its pause
@@ -162,11 +265,31 @@ func runWithAPI(c *apiCase, dbPath string, states map[uint32]*heightState) (*api
 	inBlock := false
 	var n *Node
 	violation := ""
+	var ab abortState
 	serve := func(p pausePoint) {
 		for _, call := range p.Calls {
 			var params interface{}
 			if call.Params != nil {
-				params = call.Params
+				// "height": "next" / "committed" are resolved when the call is made
+				pm := map[string]interface{}{}
+				for k, v := range call.Params {
+					switch v {
+					case "next":
+						v = committed + 1
+					case "committed":
+						v = committed
+					}
+					pm[k] = v
+				}
+				params = pm
+				call.Params = pm
+			}
+			if call.Abort > 0 {
+				if ab.run(api, call.Method, params, call.Abort) {
+					run.Aborted++
+				}
+				run.Calls++
+				continue
 			}
 			res, rerr, err := api.Call(call.Method, params)
 			run.Calls++
@@ -190,7 +313,11 @@ func runWithAPI(c *apiCase, dbPath string, states map[uint32]*heightState) (*api
 	}
 	hv.Store(SQLHook(func(ev *SQLEvent) error {
 		if atomic.LoadInt32(&syncing) == 0 || ev.GID != atomic.LoadInt64(&n.Fake.syncGID) {
-			return nil // API handler goroutines use the same pool
+			// API handler goroutines use the same pool
+			if atomic.LoadInt32(&syncing) == 1 && !ev.After {
+				ab.onHandlerSQL()
+			}
+			return nil
 		}
 		if !ev.After {
 			s := atomic.AddInt64(&seq, 1)
@@ -280,7 +407,7 @@ func genAPICalls(t *rapid.T, sc *Scenario, actors []Actor, hashes []string) []ap
 	n := rapid.IntRange(1, 3).Draw(t, "ncalls")
 	var out []apiCall
 	for i := 0; i < n; i++ {
-		switch rapid.IntRange(0, 8).Draw(t, "method") {
+		switch rapid.IntRange(0, 12).Draw(t, "method") {
 		case 0, 1:
 			out = append(out, apiCall{Method: "get-sync-status"})
 		case 2:
@@ -297,8 +424,22 @@ func genAPICalls(t *rapid.T, sc *Scenario, actors []Actor, hashes []string) []ap
 			if len(hashes) > 0 {
 				out = append(out, apiCall{Method: "get-transaction-status", Params: map[string]interface{}{"entryhash": hashes[rapid.IntRange(0, len(hashes)-1).Draw(t, "hash")]}})
 			}
-		default:
+		case 8:
 			out = append(out, apiCall{Method: "get-miner-distribution", Params: map[string]interface{}{"start": 0, "stop": -5}})
+		case 9: // history of the block being applied / of the last committed one
+			out = append(out, apiCall{Method: "get-transactions", Params: map[string]interface{}{"height": rapid.SampledFrom([]string{"next", "committed"}).Draw(t, "txh"),
+				"transfer": true, "conversion": true, "coinbase": true, "burn": true}})
+		case 10:
+			out = append(out, apiCall{Method: "get-transactions", Params: map[string]interface{}{"address": actors[rapid.IntRange(0, len(actors)-1).Draw(t, "taddr")].FA(),
+				"transfer": true, "conversion": true, "coinbase": true, "burn": true, "desc": true}})
+		case 11:
+			out = append(out, apiCall{Method: "get-graded", Params: map[string]interface{}{"height": rapid.SampledFrom([]string{"next", "committed"}).Draw(t, "gh")}})
+		default:
+			out = append(out, apiCall{Method: "get-bank", Params: map[string]interface{}{"height": rapid.SampledFrom([]string{"next", "committed"}).Draw(t, "bh")}})
+		}
+		// now and then the client hangs up in the middle of the handler
+		if len(out) > 0 && rapid.IntRange(0, 4).Draw(t, "abort") == 0 {
+			out[len(out)-1].Abort = rapid.IntRange(1, 4).Draw(t, "abortAt")
 		}
 	}
 	return out
@@ -481,6 +622,10 @@ func TestC18(t *testing.T) {
 			st.Add("api_calls", int64(run.Calls))
 			st.Add("api_calls_inside_a_block", int64(run.InsideBlock))
 			st.Add("api_error_responses", int64(run.ErrorResp))
+			st.Add("api_requests_aborted_mid_handler", int64(run.Aborted))
+			if run.Aborted > 0 {
+				st.Label("client-abort")
+			}
 			if st.WantSample() && nt != "" {
 				st.Sample(map[string]interface{}{"pauses": c.Pauses, "chain": sc.Summary()})
 			}
